@@ -61,6 +61,16 @@ def generator_clause(ck, parts=None, tag='gen'):
     os.remove(gen)
     ck.validate_traces('IsaTrace', 'Trace_Isa.cfg', gfiles, timeout=2400, sig_prefix='generator')
     ck.extra_cov['generator_vectors'] = sum(sum(1 for _ in open(f)) for f in gfiles)
+    # the configurations whose vectors depend on a narrow random placement (r7 pinned inside the Y window, second word an address
+    # inside the X window): many states per opcode from the very same generator objects (gen_rec), same file format, same clause
+    ck.build('gen_rec')
+    xgen = os.path.join(ck.work, '%s_edge.bin' % tag)
+    ck.run_jobs(['%s --n %d --out %s' % (ck.bin('gen_rec'), ck.pick(300, 1500) if parts is None else ck.pick(120, 600), xgen)], timeout=900)
+    xfiles = [os.path.join(ck.work, '%s_edge_%02d.ndjson' % (tag, i)) for i in range(16)]
+    ck.run_jobs(['%s --mode genfile:%s:%d/16 --out %s' % (ck.bin('isa_rec'), xgen, i, f) for i, f in enumerate(xfiles)], timeout=900)
+    os.remove(xgen)
+    ck.validate_traces('IsaTrace', 'Trace_Isa.cfg', xfiles, timeout=2400, sig_prefix='generator')
+    ck.extra_cov['generator_edge_vectors'] = sum(sum(1 for _ in open(f)) for f in xfiles)
     return gfiles
 
 
